@@ -18,6 +18,9 @@ func genC11(c *Ctx) *Plan {
 	r := c.R
 	cp := benchCfg(r)
 	cp.UDPBuf = r.pick(512, 512, 1400, 1400, 1400, 4096, 16384, 65507)
+	if cp.UDPBuf < 65507 && r.chance(0.6) {
+		cp.UDPBuf += r.intn(64) // block-size and padding boundaries of every alignment
+	}
 	cp.Encrypt = r.pick(0, 0, 16, 24, 32)
 	cp.ProtocolVersion = r.pick(1, 2, 2, 5)
 	cp.Compression = r.chance(0.4)
